@@ -16,7 +16,8 @@ EXPLANATION = (
     "return 'pending'; (R6) every pending_requests/cancellers/orphaned_responses insertion has its removal on each completion "
     "path, before the callback runs. Not decided: the drain clause at quiescence and the liveness clause under arbitrary "
     "interleavings."
-    ' (R12) every handler of dispatch that acknowledges the delivery itself also forgets its entry in unacknowledged_messages; (R13) the retention timer of an orphaned reply acknowledges the reply retained when it fires (data-derived from orphaned_responses), not the message captured when it was armed.')
+    ' (R12) every handler of dispatch that acknowledges the delivery itself also forgets its entry in unacknowledged_messages; (R13) the retention timer of an orphaned reply acknowledges the reply retained when it fires (data-derived from orphaned_responses), not the message captured when it was armed.'
+    ' (R14) in the arm of handle_error that tears a failed fan-out down for a retry, the retry event is published before the held branch events are released.')
 RULE_TEXT = ("obligation = one (entry, rule) pair for the path rules (all CFG paths of the entry, fixpoint over a finite domain) or one "
              "call/store site for the site rules; non-trivial = distinct (rule, site)")
 
